@@ -44,9 +44,10 @@ const (
 	OpCond                  // Cond.Wait re-acquire
 	OpNet                   // simulated socket operation
 	OpQuiesce               // wait until every other task is idle
+	OpUnlock                // about to release a lock (still holding it)
 )
 
-var opNames = [...]string{"start", "atomic", "lock", "wlock1", "wlock2", "rlock", "wgwait", "once", "chan", "wake", "select", "pool", "gosched", "yield", "cond", "net", "quiesce"}
+var opNames = [...]string{"start", "atomic", "lock", "wlock1", "wlock2", "rlock", "wgwait", "once", "chan", "wake", "select", "pool", "gosched", "yield", "cond", "net", "quiesce", "unlock"}
 
 func (k OpKind) String() string {
 	if int(k) < len(opNames) {
@@ -147,6 +148,7 @@ type Config struct {
 	VirtualCPUs  int             // what simruntime.GOMAXPROCS reports
 	Trace        bool            // keep a step trace
 	PoolDropPct  int             // simsync.Pool: percent chance that Get ignores a pooled object
+	PStall       int             // per-mille chance, at a scheduling decision, that the running task is stalled for a long stretch
 	MaxTraceLen  int
 	DrainSteps   int
 	KillOnFinish bool
@@ -173,15 +175,20 @@ type Stats struct {
 	SelectMulti   int // selects that found >= 2 ready cases
 	MapRanges     int
 	MapPermuted   int // map ranges visited in a non-sorted order
-	PoolDrops     int
-	Adopted       int
-	Leaked        int // tasks still blocked in the runtime when the run ended
-	Killed        int
-	Tasks         int
-	LibTasks      int
-	SimTime       time.Duration
-	Truncated     bool
-	SoloSkips     int // scheduling points passed without parking because only one task was alive
+	// AmbiguousRanges counts map ranges over keys without a natural order (pointers,
+	// interfaces) in which two keys could not be told apart by their contents:
+	// their relative order is the runtime's and does not replay.
+	AmbiguousRanges int
+	PoolDrops       int
+	Adopted         int
+	Leaked          int // tasks still blocked in the runtime when the run ended
+	Killed          int
+	Tasks           int
+	LibTasks        int
+	SimTime         time.Duration
+	Truncated       bool
+	SoloSkips       int // scheduling points passed without parking because only one task was alive
+	Stalls          int // long preemptions: a task held back for many steps at the point where it stood
 }
 
 // Sim is one simulated run.
@@ -212,6 +219,10 @@ type Sim struct {
 	decisions int
 	quiescing bool
 	finished  bool
+	births    []birth
+	nborn     uint64
+	stalled   *Task // long preemption in progress: this task is not chosen while others can run
+	stallEnd  int
 
 	// Deadlock is set when no task could make progress.
 	Deadlock string
@@ -502,8 +513,11 @@ func (s *Sim) park(kind OpKind, obj uintptr, mu *MutexModel, rw *RWModel, wg *WG
 	if t.exiting {
 		return
 	}
-	if s.live <= 1 && kind != OpQuiesce && mu == nil && rw == nil && wg == nil && once == nil && cond == nil {
-		// the only live task: there is no scheduling decision to make here
+	if s.live <= 1 && kind != OpQuiesce && kind != OpWake && mu == nil && rw == nil && wg == nil && once == nil && cond == nil {
+		// the only live task: there is no scheduling decision to make here.
+		// (Not for OpWake: a goroutine woken by the runtime runs while the task that
+		// woke it is still running - it may be on its way out - so the number of
+		// live tasks is not a stable thing to look at from here.)
 		s.Stats.SoloSkips++
 		return
 	}
@@ -881,6 +895,37 @@ func (s *Sim) objID(p uintptr) int {
 	return id
 }
 
+type birth struct {
+	addr uintptr
+	n    uint64
+}
+
+// Born records the creation of an object (simgen wraps every &T{...} of the code
+// under test in it). Map ranges over pointer keys visit such objects in an order
+// derived from their birth, not from their address.
+//
+//go:norace
+func Born[T any](p *T) *T {
+	if s := simTask(); s != nil {
+		s.nborn++
+		s.births = AppendNR(s.births, birth{uintptr(unsafe.Pointer(p)), s.nborn})
+	}
+	return p
+}
+
+// birthOf returns the birth number of the object at p (the latest one: an
+// address can be reused after a collection), or 0.
+//
+//go:norace
+func (s *Sim) birthOf(p uintptr) uint64 {
+	for i := len(s.births) - 1; i >= 0; i-- {
+		if s.births[i].addr == p {
+			return s.births[i].n
+		}
+	}
+	return 0
+}
+
 func mix(h, v uint64) uint64 {
 	h ^= v + 0x9e3779b97f4a7c15 + (h << 6) + (h >> 2)
 	return h
@@ -982,6 +1027,29 @@ func (s *Sim) pick() int {
 
 //go:norace
 func (s *Sim) strategyPick(r *Rand, el []*Task) int {
+	c := s.strategyPick0(r, el)
+	n := len(el)
+	// F2, long preemption ("stalled node"): now and then the task that has just
+	// run is held back where it stands for a long stretch of steps, while
+	// everything else goes on - a thread that lost its CPU in the middle of an
+	// operation. Only the choice is biased, the set of eligible tasks is not
+	// touched, so a recorded tape replays without this state.
+	if s.stalled != nil && (s.step >= s.stallEnd || s.stalled.state == stDone) {
+		s.stalled = nil
+	}
+	if s.Cfg.PStall > 0 && s.stalled == nil && n > 1 && s.last != nil && el[0] == s.last && r.Intn(1000) < s.Cfg.PStall {
+		s.stalled = s.last
+		s.stallEnd = s.step + []int{8, 40, 150, 600}[r.Intn(4)]
+		s.Stats.Stalls++
+	}
+	if s.stalled != nil && n > 1 && c < n && el[c] == s.stalled {
+		c = (c + 1 + r.Intn(n-1)) % n
+	}
+	return c
+}
+
+//go:norace
+func (s *Sim) strategyPick0(r *Rand, el []*Task) int {
 	n := len(el)
 	// no clock preemption while a task waits for quiescence: more ticks would
 	// only keep the periodic work from ever finishing
